@@ -444,28 +444,78 @@ fn large(with_storage: bool) -> BoxedStrategy<Vec<u8>> {
     .boxed()
 }
 
+/// inputs of more than a megabyte in ONE slice (a memory-mapped trace file): many large messages back to back, or —
+/// storage mode — more than a megabyte of pattern-free junk in front of a message
+pub fn huge(with_storage: bool) -> BoxedStrategy<Vec<u8>> {
+    let st = if with_storage { g::StorageMode::Always } else { g::StorageMode::Never };
+    let stretched = move || {
+        (g::message(g::MsgParams { storage: st, large: false, ..Default::default() }), any::<u64>(), 30_000usize..65_000).prop_map(|(mut m, s, want)| {
+            let hdr = m.headers_len();
+            let used = refcodec::payload_len(&m);
+            match &mut m.payload {
+                RPayload::NonVerbose(_, d) | RPayload::Control(_, d) => {
+                    let room = 65535 - hdr - 5;
+                    d.extend(expand_bytes(s, want.min(room).saturating_sub(d.len()), 1));
+                }
+                RPayload::Verbose(args) => {
+                    // a raw argument carries the bulk (NOAR stays <= 255: small messages have < 6 arguments)
+                    let room = (65535 - hdr).saturating_sub(used + 6);
+                    args.push(RArg { ty: RType { kind: RKind::Raw, vari: false, trai: false, scod: 0 }, name: None, unit: None, fixp: None, val: RVal::Raw(expand_bytes(s, want.min(room), 1)) });
+                }
+            }
+            if let (Some(e), RPayload::Verbose(args)) = (&mut m.ext, &m.payload) {
+                e.noar = args.len() as u8;
+            }
+            m.len = (hdr + refcodec::payload_len(&m)) as u16;
+            refcodec::encode(&m)
+        })
+    };
+    let many = (vec(stretched(), 2..5), 1_100_000usize..2_600_000, vec(any::<u8>(), 0..20)).prop_map(|(ms, total, tail)| {
+        let mut b = Vec::with_capacity(total + 70_000);
+        let mut i = 0;
+        while b.len() < total {
+            b.extend_from_slice(&ms[i % ms.len()]);
+            i += 1;
+        }
+        b.extend(tail);
+        b
+    });
+    if !with_storage {
+        return many.boxed();
+    }
+    let junk_first = (any::<u64>(), 1_048_000usize..2_600_000, 1u8..6, g::message(g::MsgParams { storage: g::StorageMode::Always, large: false, ..Default::default() }), g::suffix()).prop_map(|(s, l, a, m, sfx)| {
+        // (junk kept free of the pattern)
+        let mut b = crate::props::c06::scrub(expand_bytes(s, l, a));
+        b.extend(refcodec::encode(&m));
+        b.extend(sfx);
+        b
+    });
+    prop_oneof![2 => many, 1 => junk_first].boxed()
+}
+
 /// Byte strings for the decode-side properties, for a given storage mode of the *generator*
 /// (the checks parse every buffer in both modes anyway).
 pub fn hostile(with_storage: bool) -> BoxedStrategy<Vec<u8>> {
     let st = if with_storage { g::StorageMode::Always } else { g::StorageMode::Never };
     prop_oneof![
-        30 => (g::message(g::MsgParams { storage: st, ..Default::default() }), g::suffix()).prop_map(|(m, s)| {
+        300 => (g::message(g::MsgParams { storage: st, ..Default::default() }), g::suffix()).prop_map(|(m, s)| {
             let mut b = refcodec::encode(&m);
             b.extend(s);
             b
         }),
-        30 => wmsg(with_storage).prop_map(|w| render_wmsg(&w)),
-        30 => (g::message(g::MsgParams { storage: st, large: false, ..Default::default() }), vec(mutation(), 1..4), g::suffix()).prop_map(|(m, mu, s)| {
+        300 => wmsg(with_storage).prop_map(|w| render_wmsg(&w)),
+        300 => (g::message(g::MsgParams { storage: st, large: false, ..Default::default() }), vec(mutation(), 1..4), g::suffix()).prop_map(|(m, mu, s)| {
             let mut b = mutate(&m, &mu);
             b.extend(s);
             b
         }),
-        8 => prop_oneof![
+        80 => prop_oneof![
             vec(any::<u8>(), 0..300),
             vec(prop::sample::select(vec![b'D', b'L', b'T', 1u8, 0, 0xFF, 0x35, 0x41]), 0..120),
             (any::<u64>(), 0usize..300, 0u8..6).prop_map(|(s, l, a)| expand_bytes(s, l, a)),
         ],
-        2 => large(with_storage),
+        20 => large(with_storage),
+        1 => huge(with_storage),
     ]
     .boxed()
 }
